@@ -259,6 +259,11 @@ def explore(ctx):
                             iy_, ix_ = own[rng.randrange(len(own))]
                             forced = (b, float(ix_), float(iy_))
                     verts = [(x0, y0), (x1, y0), (x1, y1), (x0, y1), (x0, y0)]
+                    if rng.random() < 0.6:
+                        # as the mouse delivers it: the polygon is closed implicitly, from the release point back to the start
+                        verts = verts[:4]
+                        k_ = rng.randrange(4)
+                        verts = verts[k_:] + verts[:k_]
                     sc.lasso = object()
                     sc.callback_generator(types.SimpleNamespace(button=b))(verts)
                     inside = [int(i) for k, i in enumerate(cat['_idx']) if x0 < xs[k] < x1 and y0 < ys[k] < y1]
